@@ -44,6 +44,13 @@ def main():
 
     try:
         rep = mod.run()
+        try:
+            from engine.pyvc import executed_functions
+            for f in executed_functions():
+                if not any(g.get("name") == f["name"] for g in rep.functions):
+                    rep.functions.append(f)
+        except Exception:
+            pass
     except common_undecided() as e:  # engine could not handle the source (left the supported subset)
         print("UNDECIDED property=%s reason=%s" % (pid, e))
         traceback.print_exc()
